@@ -542,7 +542,10 @@ ValPool == <<
     <<102,105,108,101,58,117,110,105,116,45,116,101,115,116,115,46,108,111,103>>,  \* 13: 'file:unit-tests.log'
     <<65,46,98,45,99,95,100,35,49>>                             ,  \* 14: 'A.b-c_d#1'
     <<92,120,52,49>>                                            ,  \* 15: backslash 'x41'
-    <<42,46,62,61,105,110,102,111>>                                \* 16: '*.>=info'
+    <<42,46,62,61,105,110,102,111>>                             ,  \* 16: '*.>=info'
+    <<94,92,34,120,92,34,36>>                                   ,  \* 17: '^' backslash '"x' backslash '"$' (a backslash directly before a quote)
+    <<100,105,114,92>>                                          ,  \* 18: 'dir' backslash (ends in a backslash)
+    <<92,92,34,92,92,92,34>>                                       \* 19: two backslashes, quote, three backslashes, quote
 >>
 
 (* A shape is a tree whose names are indices (equal index = equal name) and whose values are
